@@ -176,7 +176,7 @@ def flag_label(repo: Repo, rep):
         "cmp(new,old) false; fix => a failed comparison, a member missing from the old value, or a structural difference found by an adapter's assign()",
     )
     sites = emission_sites(repo)
-    rep.floor("R-FLAG-LABEL", "emission sites", len(sites), 19)
+    rep.floor("R-FLAG-LABEL", "emission sites", len(sites), 14)
     for s in sites:
         in_assign = s.func.name == "assign" and s.func.module.rel.startswith("_adapter/")
         ov, nv = s.args.get("old_value"), s.args.get("new_value")
